@@ -232,7 +232,7 @@ def _limited(bd, binary, args, mem_kb=6_000_000, timeout=1500):
     return vp.run(cmd, timeout=timeout, check=False)
 
 
-def firewall_on_cycle(bd, wd, quick, seed, verdict):
+def firewall_on_cycle(bd, wd, quick, seed, verdict, variant="fw"):
     """Cycles through firewalls / projections (tools/gen_cyc.py --fw): the first ring node is a firewall, a
     projection reads it.  Two things are decided: every request terminates (the process neither hangs nor dies:
     FX_FW_TFC_RECURSION), and values.  Values handed out for such programs are wrong in a class of histories
@@ -240,28 +240,30 @@ def firewall_on_cycle(bd, wd, quick, seed, verdict):
     sides of the cycle are re-verified independently); a violation is attributed to it only if the pinned
     baseline tree shows the identical wrong observable at the same place of the same history."""
     known = {k["id"]: k for k in vp.load_known() if k["property"] == PID}
-    fam = os.path.join(wd, "fwcyc_family.ndjson")
+    tag = "fwcyc" if variant == "fw" else "gatecyc"
+    fam = os.path.join(wd, tag + "_family.ndjson")
     vp.run(["python3", os.path.join(vp.ROOT, "tools", "gen_cyc.py"), fam, str(seed + 11), "30" if quick else "200",
-            "60" if quick else "400", "--fw"])
+            "60" if quick else "400", "--" + variant])
     r = vp.tlc("EngineObsGen", cfg="EngineObsGenSim.cfg", env={"FAMILY": fam, "SHARD": "0", "SHARDS": "1"},
                workers=1, timeout=1200, check_ok=False,
                extra=["-simulate", f"num={300 if quick else 4000}", "-depth", "80", "-seed", str(seed + 5)])
-    cases = os.path.join(wd, "fwcyc_cases.ndjson")
+    cases = os.path.join(wd, tag + "_cases.ndjson")
     n = _json_lines(r["out"], cases)
     if n == 0:
-        raise vp.ToolError("no behaviours generated for the firewall-on-cycle family:\n" + r["out"][-2000:])
-    with open(cases, "a") as f:
-        for line in open(os.path.join(vp.ROOT, "witness", "c06_fw_tfc_recursion.ndjson")):
-            if line.strip():
-                f.write(line.strip() + "\n"); n += 1
+        raise vp.ToolError(f"no behaviours generated for the {tag} family:\n" + r["out"][-2000:])
+    if variant == "fw":
+        with open(cases, "a") as f:
+            for line in open(os.path.join(vp.ROOT, "witness", "c06_fw_tfc_recursion.ndjson")):
+                if line.strip():
+                    f.write(line.strip() + "\n"); n += 1
     ev = {"histories": n}
-    tr = os.path.join(wd, "fwcyc.ndjson")
+    tr = os.path.join(wd, tag + ".ndjson")
     p = _limited(bd, "eng_seq", ["--out", tr, "--mode", "replay", "--cyc", "1", "--in", cases])
     if p.returncode != 0:
         # find the history that brings the process down
         bad = None
         lines = [l for l in open(cases) if l.strip()]
-        one = os.path.join(wd, "fwcyc_one.ndjson")
+        one = os.path.join(wd, tag + "_one.ndjson")
         for i, l in enumerate(lines):
             open(one, "w").write(l)
             q = _limited(bd, "eng_seq", ["--out", one + ".tr", "--mode", "replay", "--cyc", "1", "--in", one], mem_kb=3_000_000, timeout=60)
@@ -285,7 +287,7 @@ def firewall_on_cycle(bd, wd, quick, seed, verdict):
     same = new = 0
     if mine:
         bdb = ec.build_baseline()
-        trb = os.path.join(wd, "fwcyc_baseline.ndjson")
+        trb = os.path.join(wd, tag + "_baseline.ndjson")
         pb = _limited(bdb, "eng_seq", ["--out", trb, "--mode", "replay", "--cyc", "1", "--in", cases])
         base = {}
         if pb.returncode == 0:
@@ -293,15 +295,18 @@ def firewall_on_cycle(bd, wd, quick, seed, verdict):
             base = _viol_keys(trb, resb)
         lines = [l for l in open(cases) if l.strip()]
         for key, v in sorted(mine.items()):
-            if key in base and "KF_FW_ON_CYCLE" in known and known["KF_FW_ON_CYCLE"].get("status") == "known":
+            # which listed finding a deviation that the baseline tree shares is booked under: the family's own
+            # (a firewall ON the cycle), or - gate family - the signature EngineObs attached, else the residual class
+            kid = "KF_FW_ON_CYCLE" if variant == "fw" else (v.get("kf") or "KF_UNSIG")
+            if key in base and kid in known and known[kid].get("status") == "known":
                 same += 1
-                verdict.known_finding("KF_FW_ON_CYCLE", known["KF_FW_ON_CYCLE"]["what"])
+                verdict.known_finding(kid, known[kid]["what"])
             else:
                 new += 1
                 if new <= 4:
-                    verdict.violation(f"{v['kind']} node={v['n']} got={v['got']} want={v['want']} (firewall-on-cycle family; "
+                    verdict.violation(f"{v['kind']} node={v['n']} got={v['got']} want={v['want']} ({tag} family; "
                                       f"the pinned baseline tree does not show this deviation)",
-                                      {"property": PID, "violation": v, "origin": "firewall-on-cycle family",
+                                      {"property": PID, "violation": v, "origin": tag + " family",
                                        "case": json.loads(lines[key[0]]), "cyc": 1})
     ev["deviations_identical_in_baseline_tree"] = same
     ev["deviations_not_in_baseline_tree"] = new
@@ -382,6 +387,9 @@ def run(tier, seed):
     cyc_states += conc_states
     fwcyc, fw_states = firewall_on_cycle(bd, wd, quick, seed, verdict)
     cyc_states += fw_states
+    # ... and a firewall NEXT to the cycle that switches the cycle's edges (a gate, Program.tla IsGate)
+    gatecyc, gate_states = firewall_on_cycle(bd, wd, quick, seed, verdict, variant="gate")
+    cyc_states += gate_states
     # design level: the cycle search transcribed step by step (CycleSearch.tla) meets its contract on every
     # digraph of 4 computing queries in every breadth-first order; its two mutations are refuted
     cs = vp.tlc("CycleSearch", cfg="CycleSearch_asis.cfg", workers=4, timeout=900, check_ok=False, xmx="6g")
@@ -434,6 +442,7 @@ def run(tier, seed):
         "cycle_mechanism_model_EngineCyc": cyc_mechanism,
         "concurrent_cycle_protocol_EngineConc": conc_cyc,
         "firewall_on_cycle_family": fwcyc,
+        "cycle_switched_by_a_firewall_family": gatecyc,
         "cyclic_programs": nprogs,
         "histories_from_tlc": nb,
         "events_validated": events,
